@@ -99,13 +99,27 @@ pub fn lane_main(args: &Args) -> i32 {
     let mut interleavings: BTreeSet<u64> = BTreeSet::new();
     let start = std::time::Instant::now();
     let budget_s: u64 = std::env::var("VERIF_LANE_BUDGET_S").ok().and_then(|s| s.parse().ok()).unwrap_or(u64::MAX);
-    let mut r = args.lane;
+    // slot j of this lane -> run number: within blocks of lanes x lanes runs the columns are rotated, so that runs
+    // with the same r mod 16 (the scheduler families of a check sit at fixed residues) are spread over all lanes
+    let run_of = |j: u64| -> u64 {
+        let l = args.lanes.max(1);
+        let block = l * l;
+        let b = j / block;
+        if (b + 1) * block > total {
+            return j; // last, partial block: as is
+        }
+        let i = (j % block) / l;
+        let lane = j % l;
+        b * block + i * l + ((lane + i) % l)
+    };
+    let mut j = args.lane;
     let mut cut_short = false;
     let mut hangs = 0usize;
-    while r < total {
+    while j < total {
+        let r = run_of(j);
         if let Some(only) = args.only_run {
             if r != only {
-                r += args.lanes;
+                j += args.lanes;
                 continue;
             }
         }
@@ -175,7 +189,7 @@ pub fn lane_main(args: &Args) -> i32 {
                 *foreign.entry(v.class.clone()).or_insert(0) += 1;
             }
         }
-        r += args.lanes;
+        j += args.lanes;
     }
     drop(ctx);
     let _ = std::fs::remove_dir_all(&scratch);
